@@ -69,9 +69,11 @@ type vhBodyRC struct {
 	r      *vhReader
 	env    *vhConnEnv
 	closed bool
+	reads  int
 }
 
 func (b *vhBodyRC) Read(p []byte) (int, error) {
+	b.reads++
 	// cancellation while the body is being read: the body then fails with the context's error
 	if b.env.cancelInBody && b.r.pos >= b.env.cancelAfter && b.env.ctx.err == nil {
 		b.env.ctx.cancel()
@@ -102,6 +104,7 @@ type vhConnEnv struct {
 	scriptOver   bool
 	verdict      error
 	getBodyFailed bool
+	rejectedBody *vhBodyRC // the body of the response the validator rejected
 	attemptsAtGetBodyFailure int
 }
 
@@ -145,13 +148,14 @@ func (env *vhConnEnv) RoundTrip(req *http.Request) (*http.Response, error) {
 		return nil, rec.transportErr
 	case 1:
 		env.attempts = append(env.attempts, rec)
-		return &http.Response{StatusCode: 418, Header: http.Header{}, Body: &vhBodyRC{r: &vhReader{}, env: env}}, nil
+		env.rejectedBody = &vhBodyRC{r: &vhReader{}, env: env}
+		return &http.Response{StatusCode: 418, Header: http.Header{}, Body: env.rejectedBody}, nil
 	}
 	// a 200 response streaming a template
 	var s []byte
 	// the templates enabled by TPLMASK (bit i = template i)
 	var enabled []int
-	for i := 0; i < 7; i++ {
+	for i := 0; i < 8; i++ {
 		if env.tplMask&(1<<uint(i)) != 0 {
 			enabled = append(enabled, i)
 		}
@@ -173,6 +177,11 @@ func (env *vhConnEnv) RoundTrip(req *http.Request) (*http.Response, error) {
 	case 6:
 		// a later id field on the same connection (possibly NUL: then ignored) followed by an event without id
 		s = append(append([]byte("id:7\n\nid:"), verifNondetBytes("idhole", 1)...), []byte("\ndata:x\n\n")...)
+	case 7:
+		// a retry field in a block the connection is cut in (no blank line follows): the
+		// reconnection time is set when the field is processed, not when an event is dispatched
+		d := verifNondetBytes("retrydigits", verifParam("RDIGITS", 2))
+		s = append(append([]byte("retry:"), d...), []byte("\ndata:x")...)
 	}
 	r := &vhReader{data: s}
 	switch verifChoose("endkind", 2) {
@@ -200,9 +209,17 @@ func vhC10Connect() { vhConnect() }
 func vhC11Connect() { vhConnect() }
 func vhC12Connect() { vhConnect() }
 
-func vhConnect() {
+type vhConnSetupT struct {
+	env            *vhConnEnv
+	c              *Connection
+	bodyKind       int
+	getBodyFailsAt int
+	initial        time.Duration
+}
+
+// vhConnSetup: a Connection on the scripted transport with the given MaxRetries.
+func vhConnSetup(maxRetries int) vhConnSetupT {
 	env := &vhConnEnv{ctx: &vhCtx{done: make(chan struct{})}, tplMask: verifParam("TPLMASK", 63)}
-	maxRetries := []int{-1, 1, 2}[verifChoose("maxretries", verifParam("MRCHOICES", 3))]
 	// a successful connection resets the count, so the script length is bounded instead
 	env.maxAttempts = verifParam("A", 3)
 	initial := 2 * time.Millisecond
@@ -267,6 +284,14 @@ func vhConnect() {
 	var events []Event
 	c.SubscribeToAll(func(e Event) { events = append(events, e) })
 
+	return vhConnSetupT{env: env, c: c, bodyKind: bodyKind, getBodyFailsAt: getBodyFailsAt, initial: initial}
+}
+
+func vhConnect() {
+	maxRetries := []int{-1, 1, 2}[verifChoose("maxretries", verifParam("MRCHOICES", 3))]
+	su := vhConnSetup(maxRetries)
+	env, c, bodyKind, getBodyFailsAt, initial := su.env, su.c, su.bodyKind, su.getBodyFailsAt, su.initial
+
 	err := c.Connect()
 
 	n := len(env.attempts)
@@ -289,6 +314,9 @@ func vhConnect() {
 				verifCover("C11/Connect/body-reset-failed")
 			case last.kind == 1:
 				verifAssert(ce.Err == env.verdict, "C11/Connect/validator-failure-returned-at-once")
+				// "at once": Connect does not go on to read the rejected response, which may stay
+				// open for as long as the server likes
+				verifAssert(env.rejectedBody != nil && env.rejectedBody.reads == 0, "C11/Connect/rejected-response-is-not-read")
 				verifCover("C11/Connect/validator-rejected")
 			case last.kind == 0:
 				verifAssert(ce.Err == last.transportErr, "C11/Connect/last-attempt-error-wrapped")
@@ -398,6 +426,15 @@ func vhConnect() {
 		verifAssert(d == want, "C12/Connect/wait-is-initial-interval-or-server-retry")
 	}
 
+	vhCheckC10(env, bodyKind, getBodyFailsAt, maxRetries, err)
+	_ = strings.TrimSpace
+}
+
+// vhCheckC10: the C10 obligations over the attempts the transport has seen (over one
+// Connect call or several on the same Connection).
+func vhCheckC10(env *vhConnEnv, bodyKind, getBodyFailsAt, maxRetries int, err error) {
+	n := len(env.attempts)
+	ctxDone := env.ctx.err != nil
 	// ---------------- C10: Last-Event-ID and a fresh body on every reconnect ----------------
 	lastID := ""
 	for i, a := range env.attempts {
@@ -452,6 +489,25 @@ func vhConnect() {
 			}
 		}
 	}
-	_ = strings.TrimSpace
-	_ = events
+}
+
+// Connect called again on the same Connection after it returned: its first attempt is a
+// reconnection like any other (Last-Event-ID of the last dispatched event, a body
+// re-obtained through GetBody). MaxRetries -1: every Connect makes exactly one attempt.
+func vhC10Reconnect() {
+	su := vhConnSetup(-1)
+	env := su.env
+	var err error
+	for k := 0; k < env.maxAttempts; k++ {
+		err = su.c.Connect()
+		verifAssert(err != nil, "C11/Connect/never-returns-nil")
+		if env.ctx.err != nil || env.getBodyFailed {
+			break
+		}
+		var ce *ConnectionError
+		if errors.As(err, &ce) && (ce.Err == ErrNoGetBody || ce.Err == vhErrGetBody) {
+			break
+		}
+	}
+	vhCheckC10(env, su.bodyKind, su.getBodyFailsAt, -1, err)
 }
